@@ -64,7 +64,7 @@ def run(ctx):
     ntr = 400 if q else 4000
     ctx.harness(['C01', 'record', '-seed', str(ctx.seed), '-n', str(ntr), '-out', ctx.path('trace.ndjson')])
     rejects = ctx.validate_traces('Trace_AwkSem', 'Trace_AwkSem', 'trace.ndjson', label='trace-awksem',
-                                  corrupt_event=corrupt_event, timeout=1500)
+                                  corrupt_event=corrupt_event, timeout=1500, parallel=ctx.cores)
     for r in rejects:
         ev = r['trace'][r['pos']]
         exp = r['info'].get('expected')
@@ -84,7 +84,7 @@ def run(ctx):
     with open(ctx.path('vmcases.ndjson'), 'w') as f:
         f.write(open(ctx.path('vm1.ndjson')).read())
         f.write(open(ctx.path('vm2.ndjson')).read())
-    vmrej = ctx.validate_traces('MC_VM', 'MC_VM', 'vmcases.ndjson', label='mc-vm', corrupt_event=corrupt_vm_event, timeout=3000)
+    vmrej = ctx.validate_traces('MC_VM', 'MC_VM', 'vmcases.ndjson', label='mc-vm', corrupt_event=corrupt_vm_event, timeout=3000, parallel=ctx.cores)
     ctx.cov['vm_translation_validation'] = {'rejected': len(vmrej)}
     if vmrej and not ctx.failures:
         ev = vmrej[0]['trace'][vmrej[0]['pos']]
